@@ -512,6 +512,14 @@ func (m *Machine) crcTable(poly uint32) Value {
 }
 
 func (m *Machine) crcUpdate(fr *frame, crc *Term, tabV Value, data ByteSlice) Value {
+	if dl := m.lenOrZero(data); !dl.IsConst() {
+		// symbolic length: small lengths are case-split (checksum = function of the bytes);
+		// longer data gets an uninterpreted function of (memory, offset, length) - a sound
+		// over-approximation that keeps only "same memory, same range => same checksum"
+		if !m.branch(m.tc.Cmp(OpULe, dl, Const(64, uint64(m.concBound)))) {
+			return m.tc.UF("crc32_range", 32, crc, data.obj.fold(m), data.off, dl)
+		}
+	}
 	n := m.concLen(fr, data, "crc32 data length")
 	concrete := crc.IsConst()
 	buf := make([]byte, n)
